@@ -238,7 +238,7 @@ def step_strategy(draw, n, after_relayout=False, chunked=False, has_twin=False):
         kinds = [k for k in "fi" if k in o.value_kinds] or ["f"]
         dt = {"f": ("float64",), "i": ("int64", "int32")}[draw(st.sampled_from(kinds))]
         step["vals"] = draw(S.value_column(n, dtypes=dt, regime="exact"))
-        step["mask"] = None if mk == "none" else draw(S.mask_spec(n, kinds=(mk,), negative_pos=False))
+        step["mask"] = None if mk == "none" else draw(S.mask_spec(n, kinds=(mk,), negative_pos=False, steps=not chunked))
         if forced_mask == "slice" and draw(st.booleans()):
             # a slice that starts inside the data and cuts some groups off
             a = draw(st.integers(1, max(1, n // 2)))
@@ -246,7 +246,7 @@ def step_strategy(draw, n, after_relayout=False, chunked=False, has_twin=False):
         step["kw"] = o.kw(draw, n) if o.kw else {}
     elif op in ("copy_then_sum", "classlevel_sum", "sum_margins", "twin_sum"):
         step["vals"] = draw(S.value_column(n, dtypes=("float64",), regime="exact"))
-        step["mask"] = draw(S.mask_spec(n, kinds=("none", "bool", "slice")))
+        step["mask"] = draw(S.mask_spec(n, kinds=("none", "bool", "slice"), steps=False))
     elif op == "twin_cumsum":
         step["vals"] = draw(S.value_column(n, dtypes=("float64",), regime="exact"))
         step["mask"] = draw(S.mask_spec(n, kinds=("none", "bool")))
